@@ -97,9 +97,11 @@ package auth
 
 // ---- collection access entries ----
 
-// every stored scope map and CollectionAccess entry is a real object (a JSON null would make the accessors panic)
+// every stored scope map and CollectionAccess entry is a real object (a JSON null would make the accessors panic),
+// and two scopes do not share one collection map (true of a map built by JSON unmarshalling or by getOrCreateCollectionAccess)
 //@ pred collsWF(m map[string]map[string]*CollectionAccess) bool
-//@   is (forall s string :: {s in m} {m[s]} (s in m) ==> m[s] != nil) && (forall s string, c string :: {m[s][c]} (s in m) && (c in m[s]) ==> m[s][c] != nil)
+//@   is (forall s string :: {s in m} {m[s]} (s in m) ==> m[s] != nil) && (forall s string, c string :: {m[s][c]} (s in m) && (c in m[s]) ==> m[s][c] != nil) &&
+//@      (forall a string, b string :: {m[a], m[b]} (a in m) && (b in m) && a != b ==> m[a] != m[b])
 
 //@ pred caZero(ca *CollectionAccess) bool
 //@   is ca.Channels_ == nil && ca.ExplicitChannels_ == nil && ca.JWTChannels_ == nil && ca.ChannelHistory_ == nil && ca.ChannelInvalSeq == 0
@@ -112,6 +114,47 @@ package auth
 //@   ensures[existing] old((scope in role.CollectionsAccess) && (collection in role.CollectionsAccess[scope])) ==> result == old(role.CollectionsAccess[scope][collection]) && role.CollectionsAccess == old(role.CollectionsAccess)
 //@   ensures[created]  !old((scope in role.CollectionsAccess) && (collection in role.CollectionsAccess[scope])) ==> !old(allocated(now(result))) && caZero(result)
 //@   ensures[wf]       collsWF(role.CollectionsAccess)
+//@   ensures[others]   forall s string, c string :: {role.CollectionsAccess[s][c]} !(s == scope && c == collection) ==> (((s in role.CollectionsAccess) && (c in role.CollectionsAccess[s])) <==> old((s in role.CollectionsAccess) && (c in role.CollectionsAccess[s]))) && (old((s in role.CollectionsAccess) && (c in role.CollectionsAccess[s])) ==> role.CollectionsAccess[s][c] == old(role.CollectionsAccess[s][c]))
+
+// ---- recording an invalidation / an admin grant on exactly the collection that was named ----
+// Default collection (_default._default): the principal's own top-level fields. Any other (scope, collection) --
+// including a named collection inside the _default scope -- : that collection's CollectionAccess entry (created
+// if missing). Nothing else is touched: not the top-level fields in the second case, not the entry of any other
+// collection, and no other CollectionAccess object.
+//@ pred caOthersKeepInval(ca *CollectionAccess) bool
+//@   is forall o *CollectionAccess :: {o.ChannelInvalSeq} old(allocated(o)) && o != ca ==> o.ChannelInvalSeq == old(o.ChannelInvalSeq)
+//@ pred caOthersKeepExplicit(ca *CollectionAccess) bool
+//@   is forall o *CollectionAccess :: {o.ExplicitChannels_} old(allocated(o)) && o != ca ==> o.ExplicitChannels_ == old(o.ExplicitChannels_)
+
+//@ func roleImpl.setCollectionChannelInvalSeq
+//@   safety on
+//@   requires role != nil && collsWF(role.CollectionsAccess)
+//@   modifies role.ChannelInvalSeq, role.CollectionsAccess, elems(role.CollectionsAccess), elems(role.CollectionsAccess[scope]), CollectionAccess.ChannelInvalSeq
+//@   ensures[default]        base.IsDefaultCollection(scope, collection) ==> role.ChannelInvalSeq == invalSeq && role.CollectionsAccess == old(role.CollectionsAccess) && caOthersKeepInval(nil)
+//@   ensures[named]          !base.IsDefaultCollection(scope, collection) ==> role.ChannelInvalSeq == old(role.ChannelInvalSeq) && (scope in role.CollectionsAccess) && (collection in role.CollectionsAccess[scope]) && role.CollectionsAccess[scope][collection] != nil && role.CollectionsAccess[scope][collection].ChannelInvalSeq == invalSeq && caOthersKeepInval(role.CollectionsAccess[scope][collection])
+//@   ensures[named-in-default-scope] scope == base.DefaultScope && collection != base.DefaultCollection ==> role.ChannelInvalSeq == old(role.ChannelInvalSeq) && role.CollectionsAccess[scope][collection].ChannelInvalSeq == invalSeq
+//@   ensures[other-entries]  forall s string, c string :: {role.CollectionsAccess[s][c]} !(s == scope && c == collection) && old((s in role.CollectionsAccess) && (c in role.CollectionsAccess[s])) ==> (s in role.CollectionsAccess) && (c in role.CollectionsAccess[s]) && role.CollectionsAccess[s][c] == old(role.CollectionsAccess[s][c])
+//@   ensures[wf]             collsWF(role.CollectionsAccess)
+
+//@ func roleImpl.SetExplicitChannels
+//@   requires role != nil
+//@   modifies role.ExplicitChannels_, role.ChannelInvalSeq
+//@   ensures[set] role.ExplicitChannels_ == channels && role.ChannelInvalSeq == invalSeq
+//@ func CollectionAccess.SetExplicitChannels
+//@   requires ca != nil
+//@   modifies ca.ExplicitChannels_, ca.ChannelInvalSeq
+//@   ensures[set] ca.ExplicitChannels_ == channels && ca.ChannelInvalSeq == invalSeq
+
+// SetCollectionExplicitChannels: the admin-assigned set is stored AND the computed channels of that collection are
+// invalidated at invalSeq (so that they are rebuilt on the next load), on exactly the named collection.
+//@ func roleImpl.SetCollectionExplicitChannels
+//@   safety on
+//@   requires role != nil && collsWF(role.CollectionsAccess)
+//@   modifies role.ExplicitChannels_, role.ChannelInvalSeq, role.CollectionsAccess, elems(role.CollectionsAccess), elems(role.CollectionsAccess[scope]), CollectionAccess.ChannelInvalSeq, CollectionAccess.ExplicitChannels_
+//@   ensures[default]        base.IsDefaultCollection(scope, collection) ==> role.ExplicitChannels_ == channels && role.ChannelInvalSeq == invalSeq && role.CollectionsAccess == old(role.CollectionsAccess) && caOthersKeepInval(nil) && caOthersKeepExplicit(nil)
+//@   ensures[named]          !base.IsDefaultCollection(scope, collection) ==> role.ExplicitChannels_ == old(role.ExplicitChannels_) && role.ChannelInvalSeq == old(role.ChannelInvalSeq) && (scope in role.CollectionsAccess) && (collection in role.CollectionsAccess[scope]) && role.CollectionsAccess[scope][collection] != nil && role.CollectionsAccess[scope][collection].ExplicitChannels_ == channels && role.CollectionsAccess[scope][collection].ChannelInvalSeq == invalSeq && caOthersKeepInval(role.CollectionsAccess[scope][collection]) && caOthersKeepExplicit(role.CollectionsAccess[scope][collection])
+//@   ensures[other-entries]  forall s string, c string :: {role.CollectionsAccess[s][c]} !(s == scope && c == collection) && old((s in role.CollectionsAccess) && (c in role.CollectionsAccess[s])) ==> (s in role.CollectionsAccess) && (c in role.CollectionsAccess[s]) && role.CollectionsAccess[s][c] == old(role.CollectionsAccess[s][c])
+//@   ensures[wf]             collsWF(role.CollectionsAccess)
 
 // Authenticator.calculateHistory (called by rebuildCollectionChannels and RebuildRoles) is under contract in
 // auth/zz_verif_c13.go (props C03 C13): `requires auth != nil`, `modifies elems(currentHistory)` -- it only reads
